@@ -279,8 +279,11 @@ Proof.
   - lia.
 Qed.
 
+(* repairs (A), (C), (D) are in the current sources. Repair (E) (pipe counts only valid transfers) was committed and
+   reverted again (a2b5039: it let a new request queue behind a stale cancelled one): the (E) theorems stay conditional
+   on fix_pipe_counts_valid and class no-completion-cancelled-pipe is a listed finding. *)
 Theorem fixes_present_now :
-  fix_update_interested_queues = true /\ fix_have_listed_raises = true /\ choke_checks_stalled = true /\ fix_pipe_counts_valid = true.
+  fix_update_interested_queues = true /\ fix_have_listed_raises = true /\ choke_checks_stalled = true.
 Proof. vm_compute. repeat split. Qed.
 
 (* satisfiability *)
